@@ -316,7 +316,7 @@ ParamGuards(st, e, j) ==
         LET t == ProviderOf(st.cfg, p.t, p.k) IN
         {G("plain_arg", {"C04"},
            \/ /\ a.k = "inst" /\ Len(a.ids) = 1 /\ ProducedFor(st, a.ids[1], t[1], t[2], s)
-           \/ /\ p.opt /\ a.k = "zero" /\ st.cur.op # NONE /\ st.cur.failed # NONE, NONE)}
+           \/ /\ p.opt /\ a.k = "zero" /\ ((st.cur.op # NONE /\ st.cur.failed # NONE) \/ Missing(st.cfg)), NONE)}
     ELSE
         {G("missing_optional_zero", {"C04"}, p.opt /\ a.k = "zero", NONE)}
 
